@@ -392,6 +392,8 @@ func cmdAttacks(args []string) int {
 				{{0, 0, 0, 0xff}, {0xff, 0xff, 0xff, 0xff}},
 				{{0, 0, 1, 0}},
 				{{0, 0, 0, 0}, {0, 0, 0, 0}, {0, 0, 0, 0}, {0x12, 0x34, 0x56, 0x78}},
+				{{0, 0, 0, 9}, {0, 0, 0, 8}, {0, 0, 0, 7}, {0, 0, 0, 6}, {0, 0, 0, 5}, {0, 0, 0, 4}, {0, 0, 0, 3}, {0, 0, 0, 2}, {0, 0, 0, 1}, {0, 0, 0, 0},
+					{0, 0, 0, 0xfe}, {0, 0, 0, 0xfd}, {0x80, 0, 0, 0}},
 			} {
 				w := freshWorld(sd, of, 3, "ake")
 				w.P["A"].Rand.TagOverride = seq
